@@ -539,8 +539,11 @@ func (f *fixture) cacheReader(c *ctl, slot int, r *hx.Rng, minH uint32, torn *at
 				}
 			}
 		case 7:
+			s0 := f.hist.seq.Load()
 			if hd, err := da.GetLastBlockHeader(); err != nil {
 				miss("GetLastBlockHeader", err, false)
+			} else if hd != nil && !f.hist.tipCurrent(s0, f.hist.seq.Load(), string(hd.ID)) {
+				c.fail("stale-tip: GetLastBlockHeader returned the header of height %d, which was not the tip in any chain state of the call's bracket", hd.Height)
 			} else {
 				header("GetLastBlockHeader", hd, -1)
 			}
